@@ -273,6 +273,9 @@ pub fn check(c: &Case, rec: &mut Rec) -> Result<(), String> {
         rec.class("saved-machine-halted");
     }
     let before = read_state(&mut e, machine);
+    // the hidden MEMPTR register belongs to the running machine as well (the next BIT n,(HL) shows it)
+    let memptr_before = (c.ram_seed >> 20) as u16;
+    e.verif_cpu().regs.set_mem_ptr(memptr_before);
     if let Some(n) = c.recorder_fails_after {
         // a save that fails half-way must leave the running machine as it was, too
         let limit = n as usize % 49_000;
@@ -313,6 +316,9 @@ pub fn check(c: &Case, rec: &mut Rec) -> Result<(), String> {
     let after = read_state(&mut e, machine);
     if after.regs != before.regs {
         return Err(format!("taking the snapshot changed the registers: before {:x?}, after {:x?}", before.regs, after.regs));
+    }
+    if e.verif_cpu().regs.get_mem_ptr() != memptr_before {
+        return Err(format!("taking the snapshot changed the hidden MEMPTR register of the running machine: before {:#06x}, after {:#06x}", memptr_before, e.verif_cpu().regs.get_mem_ptr()));
     }
     if after.latch != before.latch || after.locked != before.locked || after.border != before.border {
         return Err("taking the snapshot changed paging or border".into());
